@@ -33,7 +33,8 @@ RULE = ("four families of composed schemas, each paired with its expansion "
         "rule; (d) diamond-shaped component imports over 3 generated "
         "packages imported once, twice and along two paths.  "
         "distinct_nontrivial = distinct (family, composition shape, "
-        "outcome) signatures.")
+        "outcome) signatures."
+        ' Further families: a component whose datatype module loads a schema importing the same component (nested schema load); relative package names under a prefix with and without decoy top-level packages; bases broken then repaired; schema loads from a decoy working directory and through a loader that makes its own resource objects.')
 LEVEL_TEXT = ("Each (composed, expanded) schema pair is loaded by the real "
               "schema loader and every text is loaded against both; value "
               "trees or the fact of rejection must agree.")
